@@ -20,7 +20,7 @@ fn build(contents: &BTreeMap<u64, u64>, phase: u64, bh: Bh, rng: &mut Rng) -> (H
     for (k, v) in &order {
         m.insert(*k, *v);
     }
-    if phase >= 2 {
+    if (2..=4).contains(&phase) {
         let mut noise = Vec::new();
         let mut extra = 0u64;
         while m.verif_state().old.is_none() && extra < 5000 {
@@ -56,6 +56,11 @@ fn build(contents: &BTreeMap<u64, u64>, phase: u64, bh: Bh, rng: &mut Rng) -> (H
                 }
             }
         }
+    }
+    if phase == 5 && !m.is_empty() && m.verif_state().old.is_none() {
+        // resize started by reserve: main table empty, everything in the old table
+        let free = m.capacity() - m.len();
+        m.reserve(free + 1);
     }
     let split = m.verif_state().old.as_ref().map_or(false, |o| o.table.len > 0);
     (m, split)
@@ -99,7 +104,7 @@ impl Visit {
 
 fn par_case(rng: &mut Rng, rep: &mut Report, tag: &str, small: bool) {
     let n = if small { *rng.pick(&[0usize, 3, 9, 15]) } else { *rng.pick(&[0usize, 1, 7, 15, 29, 30, 61, 113, 126, 250, 900, 4000]) };
-    let phase = rng.below(5);
+    let phase = rng.below(6);
     let threads = if small { 1 + rng.usize(3) } else { 1 + rng.usize(16) };
     let bh = Bh::new(*rng.pick(&[HMode::Good, HMode::Good, HMode::Identity]), rng.below(8));
     // values are indices into the visit table
@@ -175,7 +180,7 @@ fn par_case(rng: &mut Rng, rep: &mut Report, tag: &str, small: bool) {
             }
             m.par_values_mut().for_each(|val| *val &= 0xFFFF_FFFF);
             // par_eq with a differently built map
-            let (m2, _) = build(&contents, (phase + 2) % 5, Bh::new(HMode::Good, 77), &mut Rng::new(salt));
+            let (m2, _) = build(&contents, (phase + 2) % 6, Bh::new(HMode::Good, 77), &mut Rng::new(salt));
             if !m.par_eq(&m2) || !m2.par_eq(&m) || (m == m2) != m.par_eq(&m2) {
                 return Err("par_eq disagrees with ==".into());
             }
@@ -193,8 +198,8 @@ fn par_case(rng: &mut Rng, rep: &mut Report, tag: &str, small: bool) {
             seq.extend(extra.iter().cloned());
             let mut par = m.clone();
             par.par_extend(extra.par_iter().cloned());
-            // duplicates in `extra`: sequential extend keeps the last, parallel order is
-            // unspecified, so compare key sets and the values of unique keys
+            // `extra` is an ordered (indexed) source: the parallel collection keeps its order, so
+            // duplicates resolve exactly as in sequential extend (the last one wins)
             let mut seen = BTreeMap::new();
             for (k, _) in &extra {
                 *seen.entry(*k).or_insert(0) += 1;
@@ -206,7 +211,7 @@ fn par_case(rng: &mut Rng, rep: &mut Report, tag: &str, small: bool) {
                 match par.get(k) {
                     None => return Err(format!("par_extend lost key {k}")),
                     Some(pv) => {
-                        if seen.get(k).copied().unwrap_or(0) <= 1 && pv != vv {
+                        if pv != vv {
                             return Err(format!("par_extend stored {pv} for key {k}, extend stored {vv}"));
                         }
                     }
@@ -235,7 +240,7 @@ fn par_case(rng: &mut Rng, rep: &mut Report, tag: &str, small: bool) {
                 for k in mm.keys() {
                     set.insert(*k);
                 }
-                if ph >= 2 {
+                if (2..=4).contains(&ph) {
                     let mut noise = Vec::new();
                     let mut e = 0u64;
                     while set.verif_state().old.is_none() && e < 5000 {
@@ -247,13 +252,17 @@ fn par_case(rng: &mut Rng, rep: &mut Report, tag: &str, small: bool) {
                         set.remove(&x);
                     }
                 }
+                if ph == 5 && !set.is_empty() && set.verif_state().old.is_none() {
+                    let free = set.capacity() - set.len();
+                    set.reserve(free + 1);
+                }
                 let _ = sp;
                 let sp = set.verif_state().old.as_ref().map_or(false, |o| o.table.len > 0);
                 (set, sp)
             };
             let mut r2 = Rng::new(salt ^ 5);
             let (sa, sa_split) = mk(&keys, phase, &mut r2);
-            let (sb, sb_split) = mk(&other, (phase + 3) % 5, &mut r2);
+            let (sb, sb_split) = mk(&other, (phase + 3) % 6, &mut r2);
             let v = AtomicU64::new(0);
             let cnt = Visit::new(n);
             sa.par_iter().for_each(|k| {
@@ -369,7 +378,7 @@ pub fn serde(a: &Args, rep: &mut Report) {
     for h in 0..sh.n {
         let mut hr = rng.fork();
         let n = *hr.pick(&[0usize, 1, 2, 7, 14, 15, 29, 30, 61, 113, 126, 250, 1000]);
-        let phase = hr.below(5);
+        let phase = hr.below(6);
         let mut contents = BTreeMap::new();
         while contents.len() < n {
             contents.insert(hr.below(n as u64 * 4 + 9), hr.below(1000));
@@ -399,7 +408,11 @@ pub fn serde(a: &Args, rep: &mut Report) {
                 s.insert(*k);
             }
             let mut noise = Vec::new();
-            if phase >= 2 {
+            if phase == 5 && !s.is_empty() && s.verif_state().old.is_none() {
+                let free = s.capacity() - s.len();
+                s.reserve(free + 1);
+            }
+            if (2..=4).contains(&phase) {
                 let mut e = 0u64;
                 while s.verif_state().old.is_none() && e < 5000 {
                     e += 1;
@@ -429,14 +442,20 @@ pub fn serde(a: &Args, rep: &mut Report) {
             for k in contents.keys().take(3) {
                 prior.insert(*k, 0);
             }
-            let (pm, _) = build(&prior, hr.below(5), Bh::default(), &mut hr);
+            let (pm, _) = build(&prior, hr.below(6), Bh::default(), &mut hr);
             let mut place: HashSet<u64, Bh> = HashSet::with_hasher(Bh::default());
             for k in pm.keys() {
                 place.insert(*k);
             }
             let mut e = 0u64;
             let mut noise = Vec::new();
-            if hr.chance(2, 3) {
+            let how = hr.below(4);
+            if how == 3 && !place.is_empty() && place.verif_state().old.is_none() {
+                // destination mid-resize with an empty main table
+                let free = place.capacity() - place.len();
+                place.reserve(free + 1);
+            }
+            if how <= 1 {
                 while place.verif_state().old.is_none() && e < 5000 {
                     e += 1;
                     place.insert((1 << 41) + e);
@@ -448,8 +467,15 @@ pub fn serde(a: &Args, rep: &mut Report) {
             }
             let place_split = place.verif_state().old.is_some();
             let items: Vec<u64> = s.iter().copied().collect();
-            let de: SeqDeserializer<_, DeError> = SeqDeserializer::new(items.into_iter());
-            if let Err(e) = <HashSet<u64, Bh> as Deserialize>::deserialize_in_place(de, &mut place) {
+            // with and without an up-front length (a filter adapter has no exact size hint)
+            let res = if hr.chance(1, 2) {
+                let de: SeqDeserializer<_, DeError> = SeqDeserializer::new(items.into_iter());
+                <HashSet<u64, Bh> as Deserialize>::deserialize_in_place(de, &mut place)
+            } else {
+                let de: SeqDeserializer<_, DeError> = SeqDeserializer::new(items.into_iter().filter(|_| true));
+                <HashSet<u64, Bh> as Deserialize>::deserialize_in_place(de, &mut place)
+            };
+            if let Err(e) = res {
                 return Err(format!("deserialize_in_place failed: {e}"));
             }
             if place != s || place.len() != s.len() || place.iter().copied().collect::<BTreeSet<u64>>() != contents.keys().copied().collect() {
